@@ -54,8 +54,8 @@ HANG_BUDGET = 12           # once that many calls had to be interrupted in a pha
 # proposed_fixes/C08-*.diff applied (used to try the fixes; flip the defaults when they are committed)
 _FIXED = os.environ.get("VERIF_C08_MODEL") != "prefix"      # the two defects are repaired in /repo (dac0793, 1bcc148)
 MODEL_CONSTANTS = "  PoisonedCache = %s\n  TocGuarded = %s\n" % (("FALSE", "TRUE") if _FIXED else ("TRUE", "FALSE"))
-# deviation rst-long-line-refused (open finding): VERIF_C08_LONGLINE=fixed describes the tree with the proposed fix
-LONGLINE_FIXED = os.environ.get("VERIF_C08_LONGLINE") == "fixed"
+# deviation rst-long-line-refused: repaired in /repo (db69556); the model states the repaired behaviour
+LONGLINE_FIXED = True
 MODEL_CONSTANTS += "  LongLineRefused = %s\n" % ("FALSE" if LONGLINE_FIXED else "TRUE")
 
 
@@ -718,18 +718,6 @@ def kf_toc_escapes(w: Dict[str, Any]) -> bool:
     return need is not None and "toc" in need
 
 
-def kf_long_line_refused(w: Dict[str, Any]) -> bool:
-    """Python twin of Docstring.tla KF (parse = refused): the only offence is the empty body of a reST-family docstring that
-    docutils refused as a whole (a line longer than line_length_limit), reported but not shown."""
-    tr, sc = w.get("trace") or {}, w.get("scenario") or {}
-    if w.get("failed") != ["FallbackComplete"] or sc.get("fmt") not in ("restructuredtext", "google", "numpy"):
-        return False
-    inherit = bool(tr.get("inherit"))
-    lost = [e for e in tr.get("ev", []) if e["op"] == "docstring" and e["r"] in ("lost", "partial", "broken")]
-    return bool(lost) and all(e["r"] == "lost" and tr["F"][text_of(e["o"], inherit)]["parse"] == "refused" for e in lost) \
-        and max(len(l) for l in sc.get("docA", "").split("\n")) > 10000
-
-
 def kf_poisoned_cache(w: Dict[str, Any]) -> bool:
     """Python twin of Docstring.tla KF_PoisonedCache: the only offence is a body rendered from the half-built cached
     document of an epytext docstring whose to_node() had failed (unreported) in get_summary / get_toc before."""
@@ -1163,7 +1151,6 @@ def run(ctx: Ctx) -> int:
     rng = random.Random(ctx.seed)
     ctx.register_matcher("format-toc-unguarded", kf_toc_escapes)
     ctx.register_matcher("epytext-half-built-document-cached", kf_poisoned_cache)
-    ctx.register_matcher("rst-long-line-refused", kf_long_line_refused)
     nproc = max(2, min(NCPU, 16))
     all_traces: List[Dict[str, Any]] = []
 
